@@ -55,44 +55,10 @@ def lean_deps(module, seen=None):
     return seen
 
 
-def obligations(prop, log, tier="quick"):
-    """build the property's theorems and audit their axioms; returns (n_obligations, n_discharged, broken list)"""
-    table = json.load(open(os.path.join(HERE, "obligations.json")))
-    entry = table.get(prop)
-    if entry is None:
-        return 0, 0, ["no obligations registered for %s" % prop], []
-    modules = entry["module"] if isinstance(entry["module"], list) else [entry["module"]]
+def _audit(prop, modules, theorems, log, tier, broken=None):
+    """forbidden-construct grep, axiom audit (and, in the thorough tier, leanchecker + umbrella build) for built modules"""
+    broken = broken if broken is not None else []
     module = modules[0]
-    theorems = entry["theorems"]
-    broken = []
-    # regenerate source-anchored tables (a changed table changes the model, the build re-checks the proofs)
-    try:
-        import extract_tables
-        note = extract_tables.regenerate()
-        if note:
-            log.append("tables: " + note)
-    except Exception as e:  # the extractor never raises an alarm by itself
-        log.append("tables: extractor failed (%s: %s); committed tables used" % (type(e).__name__, e))
-    # regenerate the translated leaf functions (Phil/Generated/Translated.lean; equalities in Phil.Props.Translated)
-    try:
-        import translate
-        note = translate.regenerate()
-        if note:
-            log.append("translate: " + note)
-            print("note: translate: " + note)
-    except Exception as e:  # the translator never raises an alarm by itself
-        log.append("translate: translator failed (%s: %s); committed definitions used" % (type(e).__name__, e))
-    rc, out = sh(["lake", "build", "drv"] + modules, cwd=LEAN, timeout=1500)
-    if rc != 0:
-        log.append(out[-3000:])
-        # which theorem files failed
-        failed = re.findall(r"error: (Phil/[\w/]+\.lean):(\d+)", out)
-        broken.append("lake build %s failed: %s" % (module, sorted(set(f for f, _ in failed))[:5] or out[-300:]))
-        # the driver is needed for the correspondence; try to build it alone
-        rc2, out2 = sh(["lake", "build", "drv"], cwd=LEAN, timeout=1500)
-        if rc2 != 0:
-            broken.append("driver build failed")
-        return len(theorems), 0, broken, theorems
     # forbidden constructs in the files the property depends on
     deps = {}
     for m_ in modules:
@@ -141,6 +107,63 @@ def obligations(prop, log, tier="quick"):
             else:
                 log.append("umbrella import of every property module builds")
     return len(theorems), discharged, broken, theorems
+
+
+def obligations(prop, log, tier="quick"):
+    """build the property's theorems and audit their axioms; returns (n_obligations, n_discharged, broken list)"""
+    table = json.load(open(os.path.join(HERE, "obligations.json")))
+    entry = table.get(prop)
+    if entry is None:
+        return 0, 0, ["no obligations registered for %s" % prop], []
+    modules = entry["module"] if isinstance(entry["module"], list) else [entry["module"]]
+    module = modules[0]
+    theorems = entry["theorems"]
+    broken = []
+    # regenerate source-anchored tables (a changed table changes the model, the build re-checks the proofs)
+    try:
+        import extract_tables
+        note = extract_tables.regenerate()
+        if note:
+            log.append("tables: " + note)
+    except Exception as e:  # the extractor never raises an alarm by itself
+        log.append("tables: extractor failed (%s: %s); committed tables used" % (type(e).__name__, e))
+    # regenerate the translated leaf functions (Phil/Generated/Translated.lean; equalities in Phil.Props.Translated)
+    try:
+        import translate
+        note = translate.regenerate()
+        if note:
+            log.append("translate: " + note)
+            print("note: translate: " + note)
+    except Exception as e:  # the translator never raises an alarm by itself
+        log.append("translate: translator failed (%s: %s); committed definitions used" % (type(e).__name__, e))
+    rc, out = sh(["lake", "build", "drv"] + modules, cwd=LEAN, timeout=1500)
+    if rc != 0:
+        # a re-translated leaf function whose equality proof no longer goes through breaks ONLY the obligations stated in
+        # Phil/Props/Translated*.lean: the rest of the property's theorems do not import them and are still audited
+        failed0 = sorted(set(f for f, _ in re.findall(r"error: (Phil/[\w/]+\.lean):(\d+)", out)))
+        rest = [m_ for m_ in modules if not m_.startswith("Phil.Props.Translated")]
+        if failed0 and all(f.startswith("Phil/Props/Translated") for f in failed0) and rest and len(rest) < len(modules):
+            rc_r, out_r = sh(["lake", "build", "drv"] + rest, cwd=LEAN, timeout=1500)
+            if rc_r == 0:
+                lost = [t for t in theorems if t.startswith("Phil.Translated")]
+                broken.append("the equality between the re-translated source function(s) and the model no longer checks (%s): %s"
+                              % (", ".join(failed0), ", ".join(lost[:8]) + (" ..." if len(lost) > 8 else "")))
+                log.append(out[-1500:])
+                n_all = len(theorems)
+                theorems_kept = [t for t in theorems if not t.startswith("Phil.Translated")]
+                n2, d2, b2, _ = _audit(prop, rest, theorems_kept, log, tier)
+                return n_all, d2, broken + b2, theorems
+    if rc != 0:
+        log.append(out[-3000:])
+        # which theorem files failed
+        failed = re.findall(r"error: (Phil/[\w/]+\.lean):(\d+)", out)
+        broken.append("lake build %s failed: %s" % (module, sorted(set(f for f, _ in failed))[:5] or out[-300:]))
+        # the driver is needed for the correspondence; try to build it alone
+        rc2, out2 = sh(["lake", "build", "drv"], cwd=LEAN, timeout=1500)
+        if rc2 != 0:
+            broken.append("driver build failed")
+        return len(theorems), 0, broken, theorems
+    return _audit(prop, modules, theorems, log, tier, broken)
 
 
 class Ctx:
